@@ -153,11 +153,16 @@ def impl_search(chk, binp, thorough):
     for line in out.splitlines():
         if line.startswith("diff "):
             fails.append({"what": "prefilter-changes-result", "input": line})
-        m = re.match(r"prefilter-summary fonts=(\d+) shapes=(\d+) nontrivial=(\d+) diffs=(\d+)", line)
+        if line.startswith("stale "):
+            # the hypothesis of C10_skip_sound: the apply context's digest covers every glyph of the buffer at each skip decision
+            fails.append({"what": "stale-buffer-digest", "input": line,
+                          "note": "a lookup-skip decision was taken while the apply context's digest reported a glyph of the buffer as absent "
+                                  "(a pause changed the glyph set without refreshing the digest, or a substitution did not add its output)"})
+        m = re.match(r"prefilter-summary fonts=(\d+) shapes=(\d+) nontrivial=(\d+) diffs=(\d+) stale=(\d+)", line)
         if m:
             chk.add_eval(int(m.group(2)), int(m.group(3)))
             chk.note("prefilter_on_off", {"fonts": int(m.group(1)), "shapes": int(m.group(2)),
-                                           "layout_fired": int(m.group(3)), "diffs": int(m.group(4))})
+                                           "layout_fired": int(m.group(3)), "diffs": int(m.group(4)), "stale_digest_shapes": int(m.group(5))})
             chk.sample({"prefilter": line})
     if rc != 0:
         fails.append({"what": "prefilter-search-crashed", "stderr": err[-500:]})
@@ -197,7 +202,7 @@ def run(chk):
         chk.violation("tie-or-proof-broken", {"broken": broken, "disagreements": dis[:10],
                       "note": "theorems of Props/C10.v or the model/implementation correspondence no longer check; "
                               "the implementation-level soundness and prefilter searches found no failing input"}, no_input=True)
-    chk.cov["trusted_base"] = C.DEFAULT_TRUSTED_BASE + ["hook: src/hb/set_digest.rs verif_* accessors and VERIF_PREFILTER_OFF switch"]
+    chk.cov["trusted_base"] = C.DEFAULT_TRUSTED_BASE + ["hook: src/hb/set_digest.rs verif_* accessors, VERIF_PREFILTER_OFF switch, VERIF_DIGEST_MONITOR (ot_layout.rs apply loop)"]
 
 
 def replay(chk, path):
